@@ -95,25 +95,49 @@ def check_expand(ctx, spec, expanded, what, sig0="expand"):
                           gvals.tolist(), gvals.dtype)))
 
 
-def _collapsers(names):
-    """custom collapser functions; all of them ignore the NaN padding"""
+KINDS = {
+    "mean": lambda m, a: np.nanmean(m, axis=a),
+    "std": lambda m, a: np.nanstd(m, axis=a),
+    "max": lambda m, a: np.nanmax(m, axis=a),
+    "median": lambda m, a: np.nanmedian(m, axis=a),
+    # number of rows of the bin matrix ("N(max. number of secondaries per
+    # primary) x N(unique primaries)")
+    "slots": lambda m, a: np.full(m.shape[:a] + m.shape[a + 1:], m.shape[a]),
+}
+
+
+def _parse_custom(custom):
+    """["max", "mean=median"] -> {"max": "max", "mean": "median"}:
+    name of the collapser -> kind of function behind it.  "a=b" replaces the
+    standard collapser a (mean / std / number) by the function b."""
     out = {}
-    if "max" in names:
-        out["max"] = lambda m, a: np.nanmax(m, axis=a)
-    if "median" in names:
-        out["median"] = lambda m, a: np.nanmedian(m, axis=a)
-    if "slots" in names:
-        # number of rows of the bin matrix ("N(max. number of secondaries per
-        # primary) x N(unique primaries)")
-        out["slots"] = lambda m, a: np.full(
-            m.shape[:a] + m.shape[a + 1:], m.shape[a])
+    for item in custom:
+        name, _, kind = item.partition("=")
+        out[name] = kind or name
     return out
 
 
+def _collapsers(custom):
+    """the dictionary handed to collapse(); all functions ignore the NaN
+    padding of the bin matrix"""
+    return {name: KINDS[kind] for name, kind in _parse_custom(custom).items()}
+
+
+def _expected_collapse(spec, reference):
+    cache = spec.setdefault("_collapse", {})
+    if reference not in cache:
+        cache[reference] = O.collapse_expected(spec, reference)
+    return cache[reference]
+
+
 def check_collapse(ctx, spec, collapsed, reference, custom, what):
-    ref_vars, exp = O.collapse_expected(spec, reference)
+    """collapsed = collapse(data of spec, reference, collapser of `custom`):
+    exactly the variables <var>_<name> for name in mean, std, number and the
+    custom names, each equal to the loop oracle of the function behind it"""
+    ref_vars, exp = _expected_collapse(spec, reference)
     got = _as_spec_vars(collapsed)
     n_ref = spec["n"][spec["names"].index(reference)]
+    other = spec["names"][1 - spec["names"].index(reference)]
     ctx.check(collapsed.sizes.get("collocation") == n_ref,
               "collapse/row-count", lambda: (
                   "%s: %d stored reference points (%s) but sizes %r" % (
@@ -132,9 +156,21 @@ def check_collapse(ctx, spec, collapsed, reference, custom, what):
             ctx.fail("collapse/reference-variable-missing",
                      "%s: %s/%s; variables: %r" % (what, reference, local,
                                                    sorted(got)))
-    funcs = ["mean", "std", "number"] + [c for c in custom if c != "slots"]
+    funcs = {"mean": "mean", "std": "std", "number": "number"}
+    funcs.update(_parse_custom(custom))
+    # no other collapsed variable than the ones asked for in THIS call
+    wanted = {"%s_%s" % (name, func) for name in exp for func in funcs}
+    unexpected = sorted(
+        k for k, (dims, _) in got.items()
+        if O.group_of(k) == other and "collocation" in dims
+        and k not in wanted)
+    ctx.check(not unexpected, "collapse/unexpected-variable", lambda: (
+        "%s: collapse(reference=%s, collapser names %r) returned the "
+        "variables %r in addition to %r" % (
+            what, reference, sorted(_parse_custom(custom)), unexpected,
+            sorted(wanted))))
     for name, res in exp.items():
-        for func in funcs:
+        for func, kind in funcs.items():
             key = "%s_%s" % (name, func)
             if key not in got:
                 ctx.fail("collapse/variable-missing", "%s: %s; variables: %r"
@@ -146,32 +182,117 @@ def check_collapse(ctx, spec, collapsed, reference, custom, what):
                          "%r" % (what, key, gdims, res["dims"]))
                 continue
             gvals = O.to_order(gdims, gvals, res["dims"])
-
-            def detail(key=key, func=func, gvals=gvals, res=res, name=name):
-                return ("%s: %s (reference %s)\npairs=%r\nstored %s=%r\n"
-                        "expected=%r\ngot=%r" % (
-                            what, key, reference, spec["pairs"].tolist(),
-                            name, spec["vars"][name][1].tolist(),
-                            res[func].tolist(), gvals.tolist()))
-            if func == "number":
-                ctx.check(gvals.shape == res[func].shape
-                          and gvals.dtype.kind in "iu"
-                          and np.array_equal(gvals, res[func]),
-                          "collapse/wrong-number", detail)
-            elif func in ("max", "median"):
-                ctx.check(O.close_values(gvals, res[func], res["scale"],
-                                         rtol=1e-15),
-                          "collapse/custom/wrong-" + func, detail)
+            if func == kind and func in ("mean", "std", "number"):
+                sig = "collapse/wrong-" + func
+            elif func == kind:
+                sig = "collapse/custom/wrong-" + func
             else:
-                ctx.check(O.close_values(gvals, res[func], res["scale"]),
-                          "collapse/wrong-" + func, detail)
-        if "slots" in custom:
-            key = name + "_slots"
-            ctx.check(key in got and np.all(got[key][1] == res["most"]),
-                      "collapse/custom/bin-matrix-rows", lambda: (
-                          "%s: the bin matrix handed to a custom collapser "
-                          "has %r rows, the largest number of partners is %d"
-                          % (what, got.get(key, (None, None))[1], res["most"])))
+                sig = "collapse/custom/wrong-%s-replaced-by-%s" % (func, kind)
+            if kind == "slots":
+                ctx.check(np.all(gvals == res["most"]),
+                          "collapse/custom/bin-matrix-rows", lambda: (
+                              "%s: the bin matrix handed to the custom "
+                              "collapser %r has %r rows, the largest number "
+                              "of partners is %d" % (what, func, gvals.tolist(),
+                                                     res["most"])))
+                continue
+
+            def detail(key=key, kind=kind, gvals=gvals, res=res, name=name):
+                return ("%s: %s = %s over the partners (reference %s, "
+                        "collapser names %r)\npairs=%r\nstored %s=%r\n"
+                        "expected=%r\ngot=%r" % (
+                            what, key, kind, reference,
+                            sorted(_parse_custom(custom)),
+                            spec["pairs"].tolist(),
+                            name, spec["vars"][name][1].tolist(),
+                            res[kind].tolist(), gvals.tolist()))
+            if kind == "number":
+                ctx.check(gvals.shape == res[kind].shape
+                          and gvals.dtype.kind in "iu"
+                          and np.array_equal(gvals, res[kind]), sig, detail)
+            elif kind in ("max", "median"):
+                ctx.check(O.close_values(gvals, res[kind], res["scale"],
+                                         rtol=1e-15), sig, detail)
+            else:
+                ctx.check(O.close_values(gvals, res[kind], res["scale"]),
+                          sig, detail)
+
+
+def _api():
+    """(collapse, expand, concat_collocations, Collocator) of the currently
+    loaded typhon modules (they are reloaded by _first_plain_collapse when an
+    earlier case left state behind)"""
+    import typhon.collocations.collocator as collocator
+    import typhon.collocations.common as common
+    return (common.collapse, common.expand, collocator.concat_collocations,
+            collocator.Collocator)
+
+
+class _Collect:
+    """stand-in for ctx that collects failures instead of raising"""
+
+    def __init__(self):
+        self.failures = []
+
+    def fail(self, signature, detail=""):
+        self.failures.append((signature, detail))
+
+    def check(self, cond, signature, detail=""):
+        if not cond:
+            self.fail(signature, detail() if callable(detail) else detail)
+
+
+_STATE = {"failed": False}
+
+
+def _first_plain_collapse(ctx, ds, spec, what):
+    """The first call of every case is a plain collapse that must return
+    exactly the standard variables with the standard values.
+
+    The verdict of a case must depend on the case only.  If the plain collapse
+    is wrong although nothing has been called in this case yet, typhon's
+    collocation modules are reloaded; if it is right then, an EARLIER case of
+    this process left state behind in typhon.  Every case checks that itself
+    (plain collapse after its calls with a collapser, histories), so normally
+    that earlier case has been reported already and this one is a shrink
+    candidate of it: the case goes on with the fresh modules.  Only if no case
+    of this process failed before, the leak is reported here (that report
+    cannot be replayed from this case alone)."""
+    import importlib
+    import typhon.collocations.collocator as collocator
+    import typhon.collocations.common as common
+    probe = _Collect()
+    check_collapse(probe, spec, _api()[0](ds.copy(deep=True)),
+                   spec["names"][0], [], what)
+    if not probe.failures:
+        return
+    importlib.reload(collocator)
+    importlib.reload(common)
+    again = _Collect()
+    check_collapse(again, spec, _api()[0](ds.copy(deep=True)),
+                   spec["names"][0], [], what)
+    if again.failures:          # wrong in freshly loaded modules as well
+        ctx.fail(*again.failures[0])
+        return
+    ctx.label("state-left-by-earlier-case")
+    if not _STATE["failed"]:
+        ctx.fail("collapse/state-left-by-earlier-case",
+                 "%s is wrong before anything else was called in this case "
+                 "and right after reloading typhon.collocations: calls of an "
+                 "earlier case changed the behaviour of later calls (this "
+                 "report cannot be replayed from this case alone).  First "
+                 "difference: %s: %s" % ((what,) + probe.failures[0]))
+
+
+def _tracked(check):
+    def wrapper(case, ctx):
+        try:
+            check(case, ctx)
+        except BaseException:
+            _STATE["failed"] = True
+            raise
+    wrapper.__name__ = check.__name__
+    return wrapper
 
 
 def classify(ctx, case, spec):
@@ -222,9 +343,6 @@ def classify(ctx, case, spec):
 
 def run_checks(ctx, case, datasets, tag):
     """datasets: compact xr.Datasets (one per part); the whole property"""
-    from typhon.collocations import collapse, expand
-    from typhon.collocations.collocator import concat_collocations
-
     names = None
     specs = []
     nontrivial = False
@@ -246,6 +364,9 @@ def run_checks(ctx, case, datasets, tag):
     if custom:
         kwargs["collapser"] = _collapsers(custom)
     ref_name = names[1] if ref_kind == "secondary" else names[0]
+    _first_plain_collapse(ctx, datasets[0], specs[0], tag + " part 0, first "
+                          "(plain) collapse of the case")
+    collapse, expand, concat_collocations, _ = _api()
     for i, (ds, spec) in enumerate(zip(datasets, specs)):
         what = "%s part %d" % (tag, i)
         expanded = expand(ds.copy(deep=True))
@@ -266,6 +387,15 @@ def run_checks(ctx, case, datasets, tag):
             collapsed = collapse(arg, reference, **kwargs)
         check_collapse(ctx, spec, collapsed, ref_name, custom, what)
 
+    if custom and ref_kind != "unknown":
+        # ... and a call without collapser after the calls with one is again
+        # a plain one (the collapser belongs to the call it was given to)
+        ctx.label("custom-then-plain")
+        check_collapse(ctx, specs[-1],
+                       collapse(datasets[-1].copy(deep=True), reference),
+                       ref_name, [], "%s part %d, plain collapse after "
+                       "collapse(collapser=%r)" % (tag, len(datasets) - 1,
+                                                   custom))
     if len(datasets) < 2:
         return
     ctx.label("concat", "concat-3" if len(datasets) >= 3 else None)
@@ -373,10 +503,106 @@ def check_built(case, ctx):
 
 
 # --------------------------------------------------------------------------
+# suite: histories - a sequence of calls inside one case
+# --------------------------------------------------------------------------
+def check_history(case, ctx):
+    """Every call of the sequence is compared with the loop oracle for ITS
+    arguments, whatever was called before (also with other collapsers, other
+    references, other data sets)."""
+    pool = [G.build_compact(case, part) for part in case["parts"]]
+    nparts = len(pool)
+    specs = [O.snapshot(ds) for ds in pool]
+    for spec in specs:
+        if O.validity_problems(spec):
+            raise AssertionError("generated data set is invalid")
+        ctx.nontrivial |= classify(ctx, case, spec)
+    names = specs[0]["names"]
+    ctx.label("history")
+    _first_plain_collapse(ctx, pool[0], specs[0],
+                          "history, first (plain) collapse of the case")
+    collapse, expand, concat_collocations, _ = _api()
+    last_custom = None          # collapser names of the latest collapse call
+    ever_custom = False
+    for k, step in enumerate(case["steps"]):
+        op = step["op"]
+        what = "history step %d/%d (%s) after %r" % (
+            k + 1, len(case["steps"]), op,
+            [(s_["op"], s_.get("custom")) for s_ in case["steps"][:k]])
+        if op == "concat":
+            order = [i % nparts for i in step["ds"]]
+            inputs = [pool[i].copy(deep=True) for i in sorted(set(order))]
+            lookup = dict(zip(sorted(set(order)), inputs))
+            merged = concat_collocations([lookup[i] for i in order])
+            mspec = O.snapshot(merged)
+            problems = O.validity_problems(mspec)
+            ctx.check(not problems, "concat/invalid-pairs", lambda: (
+                "%s: %s\npairs of the parts: %r\npairs of the result: %r" % (
+                    what, "; ".join(problems),
+                    [specs[i]["pairs"].tolist() for i in order],
+                    mspec["pairs"].tolist())))
+            if problems:
+                continue
+            want = np.concatenate([
+                O.expand_expected(specs[i])[names[0] + "/idx"][1]
+                for i in order])
+            got = expand(merged.copy(deep=True))[names[0] + "/idx"].values
+            ctx.check(O.same_values(got, want), "concat/wrong-rows", lambda: (
+                "%s: %s/idx of expand(concat) expected=%r got=%r" % (
+                    what, names[0], want.tolist(), got.tolist())))
+            pool.append(merged)
+            specs.append(mspec)
+            ctx.label("history-concat")
+            continue
+        i = step["ds"] % len(pool)
+        if i >= nparts:
+            ctx.label("history-call-on-concat-result")
+        if op == "expand":
+            check_expand(ctx, specs[i], expand(pool[i].copy(deep=True)), what)
+            continue
+        custom = list(step["custom"])
+        ref_kind = step["reference"]
+        reference = {"default": None, "primary": names[0],
+                     "secondary": names[1],
+                     "unknown": "no_such_group"}[ref_kind]
+        kwargs = {"collapser": _collapsers(custom)} if custom else {}
+        if custom:
+            ctx.label("custom")
+            if any("=" in c for c in custom):
+                ctx.label("custom-replaces-standard")
+        if last_custom is not None and \
+                sorted(last_custom) != sorted(_parse_custom(custom)):
+            ctx.label("history-other-collapser-after-custom")
+            if not custom:
+                ctx.label("custom-then-plain")
+        if ref_kind == "unknown":
+            try:
+                res = collapse(pool[i].copy(deep=True), reference, **kwargs)
+            except ValueError:
+                continue
+            ctx.fail("collapse/unknown-reference-accepted",
+                     "%s: collapse(reference=%r) returned %r"
+                     % (what, reference, res))
+            continue
+        ctx.label("ref-" + ref_kind)
+        collapsed = collapse(pool[i].copy(deep=True), reference, **kwargs)
+        check_collapse(ctx, specs[i], collapsed,
+                       names[1] if ref_kind == "secondary" else names[0],
+                       custom, what)
+        if custom:
+            last_custom = list(_parse_custom(custom))
+            ever_custom = True
+    if ever_custom:
+        check_collapse(ctx, specs[0], collapse(pool[0].copy(deep=True)),
+                       names[0], [], "history, closing plain collapse after "
+                       "%r" % [(s_["op"], s_.get("custom"))
+                               for s_ in case["steps"]])
+
+
+# --------------------------------------------------------------------------
 # suite 2: results of Collocator.collocate
 # --------------------------------------------------------------------------
 def check_collocator(case, ctx):
-    from typhon.collocations import Collocator
+    Collocator = _api()[3]
     ctx.label("from-collocator")
     names = case["names"]
     out_names = names or ["primary", "secondary"]
@@ -460,13 +686,17 @@ def check_collocator(case, ctx):
 
 def suites(tier):
     return [
-        Suite("built", check_built, strategy=G.built_cases(),
-              examples={"quick": 250, "thorough": 4000},
+        Suite("built", _tracked(check_built), strategy=G.built_cases(),
+              examples={"quick": 200, "thorough": 4000},
               essential_labels=(">=1000 pairs", "extra-dims", "nan",
                                 "ref-secondary", "custom", "concat-3")),
-        Suite("small-patterns-exhaustive", check_built,
+        Suite("histories", _tracked(check_history), strategy=G.history_cases(),
+              examples={"quick": 120, "thorough": 2000},
+              essential_labels=("custom-then-plain",
+                                "custom-replaces-standard")),
+        Suite("small-patterns-exhaustive", _tracked(check_built),
               cases=G.small_pattern_cases, exhaustive=True),
-        Suite("collocator", check_collocator, strategy=G.collocator_cases(),
+        Suite("collocator", _tracked(check_collocator), strategy=G.collocator_cases(),
               examples={"quick": 80, "thorough": 1000},
               essential_labels=("from-collocator",)),
     ]
